@@ -235,7 +235,7 @@ static std::string c_apply(int op, CdnsBlock& b, const Pools& P, CdnsBlockRead* 
             index_t idx = 0; for (size_t i = 0; i < b.m_ip_address.size(); i++) { StringItem k; k.data = b.get_ip_address(i); bool f = b.m_ip_address.find(k, idx); o << (f ? (long)idx : -1L) << "."; }
             o << "/" << b.m_ip_address.size() << "/" << b.m_name_rdata.size(); break; }
         case C_ADD_NEW: { o << b.add_ip_address("brand-new") << "," << b.add_name_rdata("brand-new-name"); ClassType c; c.type = 4242; c.class_ = 42; o << "," << b.add_classtype(c); break; }
-        case C_GET0: if (b.m_ip_address.size()) o << ref::hex(b.get_ip_address(0)); if (b.m_name_rdata.size()) o << "," << ref::hex(b.get_name_rdata(0)).substr(0, 40); break;
+        case C_GET0: o << "full=" << b.full() << ";bpi=" << b.get_block_parameters_index() << ";"; if (b.m_ip_address.size()) o << ref::hex(b.get_ip_address(0)); if (b.m_name_rdata.size()) o << "," << ref::hex(b.get_name_rdata(0)).substr(0, 40); break;
         case C_GENERIC_SHARED: o << b.add_question_response_record(P.qr[3]) << "/" << b.m_ip_address.size() << "/" << b.m_name_rdata.size() << "/" << b.m_qr_sig.size() << "/" << b.get_qr_count(); break;
         case C_AEC_AGAIN: o << b.add_address_event_count(P.aec[0]) << "/" << b.get_aec_count(); break;
         case C_WRITE: o << ref::hex(ser(b)).size(); o << ":" << std::hash<std::string>()(ser(b)); break;
@@ -258,6 +258,7 @@ static std::string file_of(int content, const Pools& P, BlockParameters& bp) {
 
 static void run_copy(int content, int way, int fate, const std::vector<int>& ops, const Pools& P, Result& R, std::vector<BV>& out) {
     BlockParameters bp; bp.storage_parameters.max_block_items = 1000000;
+    BlockParameters bp_other; bp_other.storage_parameters.max_block_items = 2; bp_other.storage_parameters.ticks_per_second = 1000; bp_other.storage_parameters.storage_hints.query_response_hints = 0x5; bp_other.storage_parameters.storage_hints.other_data_hints = 0;
     std::string tag = std::string(WN[way]) + "|" + FN[fate];
     std::vector<std::string> obs_copy, obs_fresh; std::string src_before, src_after;
     if (way <= W_MOVE_ASSIGN) {
@@ -265,8 +266,9 @@ static void run_copy(int content, int way, int fate, const std::vector<int>& ops
         std::unique_ptr<CdnsBlock> cp;
         switch (way) {
         case W_COPY_CTOR: cp.reset(new CdnsBlock(*src)); break; case W_MOVE_CTOR: cp.reset(new CdnsBlock(std::move(*src))); break;
-        case W_COPY_ASSIGN: cp.reset(new CdnsBlock(bp, 0)); cp->add_ip_address("to-be-overwritten"); *cp = *src; break;
-        case W_MOVE_ASSIGN: cp.reset(new CdnsBlock(bp, 0)); cp->add_name_rdata("to-be-overwritten"); *cp = std::move(*src); break;
+        // the target of an assignment already holds a block with the SAME parameters index but other parameters (tick rate, block size, hints)
+        case W_COPY_ASSIGN: cp.reset(new CdnsBlock(bp_other, 0)); cp->add_ip_address("to-be-overwritten"); cp->add_question_response_record(P.qr[4]); *cp = *src; break;
+        case W_MOVE_ASSIGN: cp.reset(new CdnsBlock(bp_other, 0)); cp->add_name_rdata("to-be-overwritten"); cp->add_malformed_message(P.mm[0]); *cp = std::move(*src); break;
         }
         switch (fate) {
         case F_KEPT: break; case F_ADDED: src->add_ip_address("src-only"); src->add_name_rdata("src-only-name"); src->add_question_response_record(P.qr[4]); break;
@@ -288,7 +290,9 @@ static void run_copy(int content, int way, int fate, const std::vector<int>& ops
             src.reset(new CdnsBlockRead(read_one(is1, r1)));
             switch (way) {
             case W_READ_COPY_CTOR: cp.reset(new CdnsBlockRead(*src)); break; case W_READ_MOVE_CTOR: cp.reset(new CdnsBlockRead(std::move(*src))); break;
-            case W_READ_COPY_ASSIGN: cp.reset(new CdnsBlockRead()); *cp = *src; break; case W_READ_MOVE_ASSIGN: cp.reset(new CdnsBlockRead()); *cp = std::move(*src); break;
+            case W_READ_COPY_ASSIGN: case W_READ_MOVE_ASSIGN: { // the target already holds a block read from ANOTHER file (other parameters, same index 0)
+                std::string other = file_of(1, P, bp_other); std::istringstream io(other); CdnsReader ro(io); bool eo; cp.reset(new CdnsBlockRead(ro.read_block(eo)));
+                if (way == W_READ_COPY_ASSIGN) *cp = *src; else *cp = std::move(*src); break; }
             }
             switch (fate) {
             case F_KEPT: break; case F_ADDED: src->add_ip_address("src-only"); src->add_name_rdata("src-only-name"); break;
